@@ -27,6 +27,10 @@ from ..core import Siblings, WholeFloats, Sub, fail, lit, close
 V = [-3, -1, 0, 1, 2, 2.5, 4]
 AZ = 'abcdefghijklmnopqrstuvwxyz'
 
+# delivery-channel differential (core.Env): of every 6 evaluations that bind variables, one is repeated with the
+# values handed in by the cell/range listeners and one with the values returned by custom functions; outcomes must agree
+CHANNELS = 6
+
 BOUNDS = {
     'quick': 'definitions: every list of length 1..4 over {-3,-1,0,1,2,2.5,4} (2800) x 19 function names x 3 '
              'forms; regrouping: every list of length <=2 and every non-decreasing list of length 3 x every '
